@@ -244,22 +244,22 @@ func (c *Ctx) finish(verifDir string, wall float64, seed int64) int {
 		"seed":        seed,
 		"level":       "other",
 		"coverage": map[string]any{
-			"explanation":         c.Explain,
-			"obligations":         decided,
-			"discharged":          nHold,
-			"evaluations":         c.Sites,
-			"distinct_nontrivial": decided,
-			"rule":                "one obligation per (rule, source construct) pair, keyed rule|construct; an obligation is non-trivial when the rule had to inspect a path, dominator, value origin or table of /repo's current source to decide it (informational entries are not counted); evaluations = call sites / instructions / syntax nodes examined by the rules",
-			"samples":             samples,
-			"rules":               c.RuleDocs,
+			"explanation":          c.Explain,
+			"obligations":          decided,
+			"discharged":           nHold,
+			"evaluations":          c.Sites,
+			"distinct_nontrivial":  decided,
+			"rule":                 "one obligation per (rule, source construct) pair, keyed rule|construct; an obligation is non-trivial when the rule had to inspect a path, dominator, value origin or table of /repo's current source to decide it (informational entries are not counted); evaluations = call sites / instructions / syntax nodes examined by the rules",
+			"samples":              samples,
+			"rules":                c.RuleDocs,
 			"obligations_per_rule": ruleCounts,
-			"informational":       nInfo,
-			"functions_analysed":  fns,
-			"packages_loaded":     len(c.W.ByPath),
-			"module_functions":    len(c.W.ModFns),
-			"callgraph":           callgraphNote(c.W),
-			"known_findings_hit":  knownHit,
-			"exhaustive":          false,
+			"informational":        nInfo,
+			"functions_analysed":   fns,
+			"packages_loaded":      len(c.W.ByPath),
+			"module_functions":     len(c.W.ModFns),
+			"callgraph":            callgraphNote(c.W),
+			"known_findings_hit":   knownHit,
+			"exhaustive":           false,
 		},
 		"assumptions": c.Assume,
 		"wall_s":      wall,
